@@ -200,10 +200,27 @@ impl<M: Math> AdaptStrategy<M> for ExternalTransformAdaptation {
     ) -> Result<(), NutsError> {
         self.step_size.update(&collector.collector1);
 
+        #[cfg(nuts_rs_verif)]
+        macro_rules! verif_adapt {
+            ($branch:expr, $fed:expr) => {
+                crate::verif::emit("adapt", || {
+                    crate::verif::json!({"ev": "adapt", "kind": "external", "draw": draw,
+                        "branch": $branch, "fed": $fed,
+                        "tid": crate::transform::Transformation::transformation_id(
+                            hamiltonian.transformation(), math),
+                        "tuning": self.tuning, "num_tune": self.num_tune,
+                        "final_window": self.final_window_size,
+                        "upd_freq": self.options.transform_update_freq,
+                        "step": crate::verif::bits(hamiltonian.step_size())})
+                });
+            };
+        }
         if draw >= self.num_tune {
             // Needed for step size jitter
             self.step_size.update_stepsize(rng, hamiltonian, true);
             self.tuning = false;
+            #[cfg(nuts_rs_verif)]
+            verif_adapt!("post", "none");
             return Ok(());
         }
 
@@ -229,12 +246,16 @@ impl<M: Math> AdaptStrategy<M> for ExternalTransformAdaptation {
             }
             self.step_size.update_estimator_early();
             self.step_size.update_stepsize(rng, hamiltonian, false);
+            #[cfg(nuts_rs_verif)]
+            verif_adapt!("mass", "early");
             return Ok(());
         }
 
         self.step_size.update_estimator_late();
         let is_last = draw == self.num_tune - 1;
         self.step_size.update_stepsize(rng, hamiltonian, is_last);
+        #[cfg(nuts_rs_verif)]
+        verif_adapt!("final", "late");
         Ok(())
     }
 
